@@ -5,7 +5,7 @@ rows = []
 for d in sorted(glob.glob("/verif/seeded/*")):
     m = json.load(open(f"{d}/meta.json"))
     name = os.path.basename(d)
-    first = "missed at first" if m["check_result"].startswith("missed") else "caught as built"
+    first = "missed at first" if m["check_result"].startswith(("missed", "first run")) else "caught as it stood"
     rows.append((name, ", ".join(os.path.basename(f) for f in m["files_changed"]), first, m["check_result"].split(": ", 1)[-1] if ": " in m["check_result"] else m["check_result"]))
 print("| seed | file(s) changed | first run | how the check reports it now |")
 print("|---|---|---|---|")
